@@ -1,4 +1,5 @@
 """C08 Simplifying the factor set never changes the result (DESIGN §5/C08)."""
+import os
 from epbd import term as tm
 from . import keyspace
 from .keyspace import key_of_names as K, key_name
@@ -51,6 +52,144 @@ def eval_under(t, comps_data, scenario):
         if x.op == "any" and x.a[0].op == "iter" and x.a[0].a[0] is comps_data:
             sub[x] = tm.or_(*[tm.apply_lam(x.a[1], [c]) for c in scenario])
     return tm.subst(t, sub) if sub else t
+
+
+def eval_scenario(t, comps_data, scenario, cache=None):
+    """Evaluate reductions over components.data on a finite set of class representatives (symbolic values):
+    any -> disjunction, sums -> finite sums (0 when no representative is selected)."""
+    cache = {} if cache is None else cache
+    r = cache.get(t.id)
+    if r is not None:
+        return r
+
+    def over_data(src):
+        preds = []
+        cur = src
+        while True:
+            if cur.op == "filter":
+                preds.append(cur.a[1])
+                cur = cur.a[0]
+            elif cur.op == "iter" and isinstance(cur.a[0], tm.T) and cur.a[0].op == "collect":
+                cur = cur.a[0].a[0]
+            elif cur.op in ("iter", "cloned", "copied"):
+                cur = cur.a[0]
+            else:
+                break
+        if cur is comps_data:
+            return preds
+        return None
+    r = None
+    if t.op in ("any", "sumover", "vsumover") and len(t.a) >= 2 and isinstance(t.a[1], tm.T) and t.a[1].op == "lam":
+        preds = over_data(t.a[0])
+        if preds is not None:
+            sel = []
+            for c in scenario:
+                g = tm.and_(*[tm.apply_lam(p, [c]) for p in preds]) if preds else tm.TRUE
+                if g is not tm.FALSE:
+                    sel.append((g, c))
+            if t.op == "any":
+                r = tm.or_(*[tm.and_(g, tm.apply_lam(t.a[1], [c])) for g, c in sel])
+            elif not sel:
+                r = tm.ZERO if t.op == "sumover" else tm.mk("rep", tm.ZERO, tm.sym("cls:nsteps"))
+    if r is None:
+        if not t.a or t.op == "lam":
+            r = t
+        else:
+            args = [eval_scenario(x, comps_data, scenario, cache) if isinstance(x, tm.T) else x for x in t.a]
+            r = tm.rebuild(t.op, args) if any(x is not y for x, y in zip(args, t.a)) else t
+            if r.op == "sum" and r.a[0].op == "iter" and r.a[0].a[0].op == "rep" and r.a[0].a[0].a[0] is tm.ZERO:
+                r = tm.ZERO
+            if r.op in ("lt",) and r.a[0] is tm.ZERO and r.a[1] is tm.ZERO:
+                r = tm.FALSE
+    cache[t.id] = r
+    return r
+
+
+def dhw_indicator_lookups(ctx, rep, m, A, data, where):
+    """S2 for the DHW indicator: every factor it looks up on its own (outside the balance's value graph), for
+    the minimal building whose DHW uses the carrier of that factor, is kept by strip - unless the path
+    condition of the lookup is false for that building."""
+    from . import epmodel
+    from .c15 import walk_gated
+    lib = ctx.lib
+    e = epmodel.ep(ctx, False)
+    fb = ctx.find_public_fn(lib, "fraccion_renovable_acs_nrb")
+    ev, r, _a = ctx.eval_entry("lib", fb, args=[e.ok])
+    edata = tm.proj(e.params["components"], 0, 1, "data")
+    stop = set()
+    for p, t, gates in epmodel.leaves(e.ok, ()):
+        if isinstance(t, tm.T) and p and p[0] in ("balance", "balance_cr", "balance_m2", "rer", "rer_nrb", "rer_onst"):
+            stop.add(t.id)
+    found = {}
+
+    def visit(t, gates):
+        if t.op == "find_val" and isinstance(t.a[1], tm.T) and t.a[1].op == "lam":
+            el = tm.sym("cls:factor")
+            b = tm.apply_lam(t.a[1], [el])
+            key = {}
+            for c in (b.a if b.op == "and" else (b,)):
+                if c.op == "isvar" and c.a[0].op == "proj" and c.a[0].a[0] is el:
+                    key[c.a[0].a[3]] = tm.variant_name(c.a[1], c.a[2])
+            if set(key) == {"carrier", "source", "dest", "step"}:
+                k = K(key["carrier"], key["source"], key["dest"], key["step"])
+                found.setdefault((k, tuple(g.id for g in gates)), (k, list(gates)))
+    seen = set()
+
+    def walk(t, gates):
+        if t.id in stop:
+            return
+        kk = (t.id, tuple(g.id for g in gates[-8:]))
+        if kk in seen:
+            return
+        seen.add(kk)
+        visit(t, gates)
+        if t.op == "ite":
+            c = t.a[0]
+            if c.op == "and":
+                # nested ifs are merged into one conjunction: a lookup inside one conjunct only matters
+                # (and, in the program, is only evaluated) when the others hold
+                for i, ci in enumerate(c.a):
+                    walk(ci, gates + [cj for j, cj in enumerate(c.a) if j != i])
+            else:
+                walk(c, gates)
+            walk(t.a[1], gates + [t.a[0]])
+            walk(t.a[2], gates + [tm.not_(t.a[0])])
+            return
+        if t.op in ("lam", "find_val"):
+            return
+        for x in t.a:
+            if isinstance(x, tm.T):
+                walk(x, gates)
+    walk(r, [])
+    rep.floor("dhw-indicator-lookups-found", len(set(k for (k, _g) in found)), 1)
+    n = 0
+    done = set()
+    for (k, _gid), (k, gates) in sorted(found.items(), key=lambda kv: key_name(kv[0][0])):
+        cname = tm.variant_name("Carrier", k[0])
+        for extra, tag in (([], ""), ([used("ELECTRICIDAD", "ACS")], "+electric-dhw")):
+            witness = [used(cname, "ACS")] + extra
+            g = tm.and_(*[eval_scenario(x, edata, witness) for x in gates]) if gates else tm.TRUE
+            if os.environ.get("EPBD_DEBUG"):
+                print("DHW-LOOKUP", key_name(k), tag, "gates", len(gates), "->", tm.show(g, 2)[:80])
+            if g is tm.FALSE:
+                continue
+            dk = (k, tag)
+            if dk in done:
+                continue
+            done.add(dk)
+            n += 1
+            key = "C08/S2/dhw/%s%s" % (key_name(k), tag)
+            p, v = m[k]
+            kept = tm.subst(eval_under(p, data, witness), {A.p0[k]: tm.TRUE})
+            if kept is tm.TRUE:
+                rep.discharged(key, "%s, which the DHW indicator looks up for a building whose DHW uses %s%s, survives the simplification" % (key_name(k), cname, tag))
+            elif kept is tm.FALSE:
+                rep.violated(key, "a factor the DHW indicator looks up survives the simplification (same results, no new error)", construct=where,
+                             why="%s is removed for a building with exactly %s, and the indicator's lookup is not excluded for it"
+                                 % (key_name(k), [tm.show(w, 2)[:40] for w in witness]))
+            else:
+                rep.underivable(key, "need => kept is decidable on the witness", construct=where, why=tm.show(kept, 3)[:200])
+    return n
 
 
 def readable_again(ctx, rep, stripped, base, data, carriers, where):
@@ -160,6 +299,7 @@ def run(ctx, rep):
         needs.append((K("ELECTRICIDAD", "COGEN", "A_NEPB", st), cg + [used("ELECTRICIDAD", "NEPB")],
                       "file-defined cogeneration export-to-nEPB factor"))
     s4 = readable_again(ctx, rep, r, base, data, carriers, where)
+    dhw_indicator_lookups(ctx, rep, m, A, data, where)
     n = 0
     skipped = 0
     for k, witness, why in needs:
